@@ -63,11 +63,11 @@ COINCIDENCE_SHAPES = {
     "same-row-columns": _base([["eqr", 0, 4, 2, 4]], [["a", 0], ["a", 2]]),
     "self-copy": _base([["eqr", 2, 6, 2, 6], ["eqr", 2, 6, 1, 6]], [["a", 1], ["a", 2]]),
     # near misses: equal index different row, equal row different index
-    "near-misses": _base([["instr", 1, 2, 1, 3], ["instr", 2, 1, 1, 1], ["constr", 0, 0, 5], ["constr", 1, 1, 6]],
+    "near-misses": _base([["instr", 1, 2, 1, 3], ["instr", 2, 3, 1, 3], ["constr", 0, 0, 5], ["constr", 2, 1, 6]],
                          [["a", 0], ["a", 1], ["a", 2], ["i", 1]], ninst=2, const_col=True),
     # everything at once, chained through shared cells (classes of size > 2, 6 permutation columns)
-    "combined-chains": _base([["instr", 1, 2, 1, 2], ["constr", 1, 0, 9], ["eqr", 0, 3, 0, 5], ["eqr", 0, 4, 2, 4], ["eqr", 2, 6, 2, 6],
-                              ["fixr", 0, 1, 0, 1], ["instr", 2, 0, 1, 0], ["eqr", 0, 5, 2, 4], ["eqr", 1, 2, 0, 3]],
+    "combined-chains": _base([["instr", 1, 2, 1, 2], ["constr", 1, 0, 9], ["fixr", 0, 1, 0, 1], ["instr", 2, 0, 1, 0],
+                              ["eqr", 0, 3, 0, 5], ["eqr", 0, 4, 2, 4], ["eqr", 2, 6, 2, 6], ["eqr", 0, 5, 2, 4], ["eqr", 1, 7, 0, 3]],
                              [["a", 0], ["a", 1], ["a", 2], ["i", 1], ["f", 0]], ninst=2, const_col=True),
 }
 
@@ -208,6 +208,7 @@ def analyse(d, shape):
     out["twin_edge"] = tw
     # which copy entry explains a lost tie
     out["cheat"] = None
+    out["cheats"] = []
     if out["lost"]:
         name = lambda c: (mcols[c[0]], c[1])
         for idx in range(len(shape["copies"])):
@@ -224,26 +225,34 @@ def analyse(d, shape):
                 except ValueError:
                     continue
                 if ca != cb and ufm.find(ca) == ufm.find(cb) and ufk.find(ca) != ufk.find(cb):
-                    out["cheat"] = idx
-                    break
+                    out["cheats"].append(idx)
             else:
                 # tie to a constant: the advice cell's class in the checker contains a constant-column cell the vk class lacks
                 mclass = {c for c in cells if ufm.find(c) == ufm.find(ca)}
                 kclass = {c for c in cells if ufk.find(c) == ufk.find(ca)}
                 if any(mcols[c[0]].startswith("f") for c in mclass - kclass):
-                    out["cheat"] = idx
-                    break
+                    out["cheats"].append(idx)
+        out["cheat"] = out["cheats"][0] if out["cheats"] else None
     return out
 
 
 def fixed_pairs(d):
+    """vk fixed vectors against the checker: MockProver::run converts its selectors to fixed columns the same way
+    keygen does (appended after the circuit's fixed columns), so fixed() has the vk's column count; the appended
+    columns must in addition equal selectors()."""
     kf, mf, ms = d["keygen"]["fixed"], d["mock"]["fixed"], d["mock"]["selectors"]
-    pairs = [(len(kf), len(mf) + len(ms))]
-    want = [[int(v, 16) for v in col] for col in mf] + [[1 if b else 0 for b in col] for col in ms]
+    pairs = [(len(kf), len(mf))]
+    want = [[int(v, 16) for v in col] for col in mf]
     for kc, wc in zip(kf, want):
         pairs.append((len(kc), len(wc)))
         for a, b in zip(kc, wc):
             pairs.append((int(a, 16) if a.startswith("0x") else -1, b))
+    base = len(kf) - len(ms)
+    for s_i, sel in enumerate(ms):
+        kc = kf[base + s_i] if 0 <= base + s_i < len(kf) else []
+        pairs.append((len(kc), len(sel)))
+        for a, b in zip(kc, sel):
+            pairs.append((int(a, 16) if a.startswith("0x") else -1, 1 if b else 0))
     return pairs
 
 
@@ -266,9 +275,12 @@ def check_member(run, name, m):
     # ---- permutation
     q1 = solvers.solve(entail_smt(an["cells"], an["me"], an["ke"]), timeout=60)       # checker |= every keygen edge
     q2 = solvers.solve(entail_smt(an["cells"], an["ke"], an["me"]), timeout=60)       # keygen  |= every checker edge
-    tw = solvers.solve(entail_smt(an["cells"], an["me"], an["ke"], extra_goal=an["twin_edge"]), timeout=60) if an["twin_edge"] else None
+    if an["twin_edge"]:
+        tw = solvers.solve(entail_smt(an["cells"], an["me"], an["ke"], extra_goal=an["twin_edge"]), timeout=60)
+    else:   # fewer than two classes (e.g. no permutation argument at all): the goal `true` is the reachable twin
+        tw = solvers.solve("(set-logic ALL)\n(assert true)", timeout=30)
     ob_p.queries += 3
-    ob_p.vacuity = bool(tw and tw.status == "sat")
+    ob_p.vacuity = tw.status == "sat"
     sts = (q1.status, q2.status)
     if sts == ("unsat", "unsat") and not an["problems"] and ob_p.vacuity:
         ob_p.set(HOLDS, f"{len(an['cells'])} cells, {len(an['me'])} non-trivial checker edges in {an['n_classes']} classes, "
@@ -346,13 +358,17 @@ def replay(payload):
     d = symf.sx("keygen", shape=m["shape"], k=m["k"], lens=m["lens"] or [0])
     an = analyse(d, m["shape"])
     print(f"re-run: vk lost {len(an['lost'])} checker ties, has {len(an['extra'])} extra ties, problems {an['problems'][:2]}")
-    if an["lost"] and an["cheat"] is not None:
-        # real stack: the witness violates exactly the copy entry whose tie the vk lost
-        rd = symf.sx("real", shape=m["shape"], k=m["k"], np=1, nbc=0, lens=m["lens"] or [0], cheat=an["cheat"])
-        mock_rejects = any(not x.startswith("Ok") for x in rd.get("mock_prover", []))
-        print(f"real stack with copy entry #{an['cheat']} {m['shape']['copies'][an['cheat']]} violated: "
-              f"MockProver {rd.get('mock_prover')[0][:140]} ; real verifier verdict: {rd.get('verdict')}")
-        return 1 if (mock_rejects and rd.get("accepted") is True) else 0
+    if an["lost"] and an["cheats"]:
+        # real stack: the witness violates exactly one copy entry whose tie the vk lost (entries whose cells take part
+        # in further ties may break those too; every candidate entry is tried until one isolates the lost tie)
+        for idx in an["cheats"]:
+            rd = symf.sx("real", shape=m["shape"], k=m["k"], np=1, nbc=0, lens=m["lens"] or [0], cheat=idx)
+            mock_rejects = any(not x.startswith("Ok") for x in rd.get("mock_prover", []))
+            print(f"real stack with copy entry #{idx} {m['shape']['copies'][idx]} violated: "
+                  f"MockProver {rd.get('mock_prover')[0][:140]} ; real verifier verdict: {rd.get('verdict')}")
+            if mock_rejects and rd.get("accepted") is True:
+                return 1
+        return 0
     if an["extra"] and not an["lost"]:
         # the vk ties cells the checker does not: an honest proof is then rejected
         rd = symf.sx("real", shape=m["shape"], k=m["k"], np=1, nbc=0, lens=m["lens"] or [0])
